@@ -196,12 +196,14 @@ impl LookupRequest<SortAttributes, Universal2DBox> for SortLookup {
     ) -> bool {
         match self {
             SortLookup::IdleLookup(scene_id) => {
+                let current_epoch = attributes
+                    .opts
+                    .current_epoch_with_scene(attributes.scene_id)
+                    .unwrap();
                 *scene_id == attributes.scene_id
-                    && attributes.last_updated_epoch
-                        != attributes
-                            .opts
-                            .current_epoch_with_scene(attributes.scene_id)
-                            .unwrap()
+                    && attributes.last_updated_epoch != current_epoch
+                    && attributes.last_updated_epoch + attributes.opts.max_idle_epochs()
+                        >= current_epoch
             }
         }
     }
